@@ -248,6 +248,9 @@ func (e *Engine) getModel(file, text string, o Obligation) string {
 		if strings.Contains(text, p.term) {
 			terms = append(terms, p.term)
 		}
+		if b, ok := e.bitsSyms[p.term]; ok && strings.Contains(text, b) {
+			terms = append(terms, b)
+		}
 	}
 	if len(terms) == 0 {
 		return ""
